@@ -30,6 +30,7 @@ func verifUF2(name string, x, y int) int
 func verifKnown(id, label string, cond bool)
 func verifOrderFree()
 func verifOutput(s string)
+func verifShadow(sym, twin string) string
 func verifOrderInsertion()
 func verifOrderDeviations() int
 func verifCapNondet()
@@ -199,6 +200,7 @@ func verifKnown(id, label string, cond bool) {}
 func verifOrderFree()                       {}
 func verifOrderDeviations() int            { return 0 }
 func verifOrderInsertion()                 {}
+func verifShadow(sym, twin string) string  { return sym }
 func verifOutput(s string)                 { verifOutputs = append(verifOutputs, s) }
 func verifCapNondet()                       {}
 func verifPrint(label string, v interface{}) { fmt.Fprintf(os.Stderr, "[verifPrint] %%s: %%v\n", label, v) }
